@@ -15,6 +15,14 @@ class Hamiltonian(CallableModel):
         super().__init__(id_)
         self.joint = joint
 
+    def __call__(self, *args, **kwargs) -> Tensor:
+        # The value depends on the momentum and the (inverse) mass matrix, which are
+        # passed as keyword arguments and are therefore invisible to the
+        # parameter/model listeners that invalidate CallableModel's cached value.
+        # The potential energy is still cached by the joint distribution itself.
+        self.lp = self._call(*args, **kwargs)
+        return self.lp
+
     def _call(self, *args, **kwargs) -> Tensor:
         momentum: Tensor = kwargs["momentum"]
         if "inverse_mass_matrix" in kwargs:
